@@ -465,30 +465,34 @@ Proof.
   - rewrite (parse_versions_notok vs E). reflexivity.
 Qed.
 
-Lemma discover : forall it, tree_parses it = true -> listed (dir_tree it) = Ok (map md_of (flat it)).
+Local Arguments bytes_eqb : simpl never.
+
+Lemma discover : forall it, no_staging it = true -> tree_parses it = true -> listed (dir_tree it) = Ok (map md_of (flat it)).
 Proof.
-  unfold listed, tree_parses, flat.
-  induction it as [|[repo ps] t IH]; simpl; intro H; [reflexivity|].
-  apply andb_true_iff in H. destruct H as [H1 H2].
-  rewrite (list_plugins_ok repo ps H1). simpl. rewrite (IH H2). simpl.
+  unfold listed, tree_parses, flat, no_staging.
+  induction it as [|[repo ps] t IH]; simpl; intros NS H; [reflexivity|].
+  apply andb_true_iff in H. destruct H as [H1 H2]. apply andb_true_iff in NS. destruct NS as [N1 N2].
+  apply negb_true_iff in N1. rewrite N1.
+  rewrite (list_plugins_ok repo ps H1). simpl. rewrite (IH N2 H2). simpl.
   rewrite map_app. rewrite map_map. f_equal. f_equal. apply map_ext. intros [name vs]. reflexivity.
 Qed.
 
-Lemma discover_bad : forall it, tree_parses it = false -> listed (dir_tree it) = Err e_bad_version.
+Lemma discover_bad : forall it, no_staging it = true -> tree_parses it = false -> listed (dir_tree it) = Err e_bad_version.
 Proof.
-  unfold listed, tree_parses.
-  induction it as [|[repo ps] t IH]; simpl; intro H; [discriminate|].
+  unfold listed, tree_parses, no_staging.
+  induction it as [|[repo ps] t IH]; simpl; intros NS H; [discriminate|].
+  apply andb_true_iff in NS. destruct NS as [N1 N2]. apply negb_true_iff in N1. rewrite N1.
   destruct (forallb (fun '(_, vs) => is_ok (parse_versions vs)) ps) eqn:E.
-  - simpl in H. rewrite (list_plugins_ok repo ps E). simpl. rewrite (IH H). reflexivity.
+  - simpl in H. rewrite (list_plugins_ok repo ps E). simpl. rewrite (IH N2 H). reflexivity.
   - rewrite (list_plugins_bad repo ps E). reflexivity.
 Qed.
 
 Lemma discover_pinned_refuted : exists it,
-  tree_parses it = true /\ listed_pinned (dir_tree it) <> Ok (map md_of (flat it)).
+  no_staging it = true /\ tree_parses it = true /\ listed_pinned (dir_tree it) <> Ok (map md_of (flat it)).
 Proof.
   (* repository core, plugin "my-plugin", version 1.0.0: listed as "plugin" *)
   exists [([99;111;114;101], [([109;121;45;112;108;117;103;105;110], [[49;46;48;46;48]])])].
-  split; [reflexivity|]. vm_compute. intro H. inversion H.
+  split; [reflexivity|]. split; [reflexivity|]. vm_compute. intro H. inversion H.
 Qed.
 
 (* ---------------- resolution ---------------- *)
@@ -514,7 +518,7 @@ Proof.
 Qed.
 
 Lemma resolve_correct : forall it repo name vs c,
-  tree_parses it = true -> NoDup (map ref_of (flat it)) -> In (repo, name, vs) (flat it) ->
+  no_staging it = true -> tree_parses it = true -> NoDup (map ref_of (flat it)) -> In (repo, name, vs) (flat it) ->
   all_canon (parsed_or_nil vs) ->
   forall l, listed (dir_tree it) = Ok l ->
   match resolve l name repo c with
@@ -523,7 +527,7 @@ Lemma resolve_correct : forall it repo name vs c,
   | None => forall w, In w (parsed_or_nil vs) -> check c w = false
   end.
 Proof.
-  intros it repo name vs c TP ND Hin C l L. rewrite (discover it TP) in L. inversion L; subst l. clear L.
+  intros it repo name vs c NS TP ND Hin C l L. rewrite (discover it NS TP) in L. inversion L; subst l. clear L.
   unfold resolve.
   assert (F : find (ref_is name repo) (map md_of (flat it)) = Some (md_of (repo, name, vs))).
   { apply find_unique.
